@@ -45,6 +45,77 @@ Panic == /\ Ev("Panic")
          /\ cnt' = Bump(cnt, "panics")
          /\ UNCHANGED refobs
 
+\* ---------------------------------------------------------------- C17
+(* The functional derivative is the derivative of the discretised functional.                                       *)
+(*   F[rho] = sum_k v_k f_k(rho)          (v: the integration weights of the grid, f: Helmholtz energy density)    *)
+(*   Var1:    d/de F[rho + e eta] |_0  =  <g, eta>_v          g = dF/drho as returned by functional_derivative     *)
+(*   Var2:    d/de g[rho + e eta] |_0  =  H eta               H = the second-variation operator of the Newton      *)
+(*            solver (second_partial_derivatives + delta_functional_derivative), pointwise and projected on zeta;  *)
+(*            <zeta, H eta>_v = <eta, H zeta>_v                                                                      *)
+(*   Adjoint: <w_a * eta, q>_v = <eta, w_a^T * q>_v for every weighted density a of every contribution (scalar and *)
+(*            vector weight functions), i.e. Convolver::weighted_densities and ::functional_derivative are adjoint  *)
+(*   BondVar: d/de ln I[e0 exp(-e delta)] |_0 = delta_bond_integrals(e0, delta)   (bond integrals of chains)       *)
+(* The recorder stores raw values only (F at rho +- e eta for two e, g, H eta, inner products formed with the      *)
+(* library's own integrate); the difference quotients (4th order from the two step sizes) are formed here.          *)
+(* Var2 and BondVar are identities of the discrete maps and hold to difference-quotient accuracy on every grid.    *)
+(* Var1, the symmetry of H and Adjoint need the two discrete convolutions to be adjoint w.r.t. the weights v: exact *)
+(* on Cartesian and periodic grids (FFT), second-order convergent on spherical grids, and limited to ~1e-4 by the  *)
+(* quasi-discrete Hankel transform on polar / cylindrical grids (measured; see DESIGN.md).                          *)
+IsFlat(g) == g \in {"cartesian", "cartesian2", "cartesian3", "periodical2(90)", "periodical2(60)", "periodical3(90,90,90)", "periodical3(80,70,60)"}
+\* relative non-adjointness admitted per grid kind and number of points of the curved axis
+TolAdjoint(g, n) ==
+  IF IsFlat(g) THEN "1e-9"
+  ELSE IF g = "spherical" THEN FAdd("1e-6", FMul("1e-3", FOfRatio(64 * 64, n * n)))
+  ELSE FAdd("5e-4", FMul("2", FOfRatio(32 * 32 * 32, n * n * n)))      \* polar, cylindrical
+TolDiffQuot == "1e-6"     \* difference quotients (4th order, steps 1e-3 and 5e-4 relative to the local density)
+DQ(minus, plus, eps) == Stencil4(<<minus[1], minus[2], plus[2], plus[1]>>, eps[2])
+DQ2(minus, plus, eps) == Stencil2(<<minus[2], plus[2]>>, eps[2])
+VInfo == <<E.functional, E.grid, E.points, E.profile, E.lanczos>>
+VCount(kind) == {kind, kind \o ":" \o E.grid, "functional:" \o E.functional}
+
+Var1 ==
+  /\ Ev("Var1")
+  /\ LET d == DQ(E.F_minus, E.F_plus, E.eps)
+         tol == FAdd(TolDiffQuot, FMul("5", TolAdjoint(E.grid, E.points[1])))
+     IN
+     /\ Report("C17.density_positive", <<VInfo, E.rho_min, l>>, FLt("0", E.rho_min))
+     /\ Chk("C17.first_variation", <<VInfo, d, E.inner, l>>, d, E.inner, tol, E.inner_abs, "0")
+  /\ cnt' = BumpAll(cnt, VCount("var1"))
+  /\ UNCHANGED refobs
+
+Var2 ==
+  /\ Ev("Var2")
+  /\ LET d == DQ(E.proj_g_minus, E.proj_g_plus, E.eps)
+         tolS == FMul("5", TolAdjoint(E.grid, E.points[1]))
+     IN
+     /\ Chk("C17.second_variation_projected", <<VInfo, d, E.sym_ab, l>>, d, E.sym_ab, TolDiffQuot, E.sym_scale, "0")
+     /\ Chk("C17.second_variation_symmetric", <<VInfo, E.sym_ab, E.sym_ba, l>>, E.sym_ab, E.sym_ba, tolS, E.sym_scale, "0")
+     /\ (E.has_fields =>
+           LET n == Len(E.H_eta)
+               dq == [k \in 1..n |-> DQ(<<E.g_minus[1][k], E.g_minus[2][k]>>, <<E.g_plus[1][k], E.g_plus[2][k]>>, E.eps)]
+               defect == FMaxAbs([k \in 1..n |-> FSub(dq[k], E.H_eta[k])])
+           IN Chk("C17.second_variation_pointwise", <<VInfo, defect, FMaxAbs(E.H_eta), l>>, defect, "0", TolDiffQuot, FMaxAbs(E.H_eta), "0"))
+  /\ cnt' = BumpAll(cnt, VCount("var2") \cup (IF E.has_fields THEN {"var2_fields"} ELSE {}))
+  /\ UNCHANGED refobs
+
+Adjoint ==
+  /\ Ev("Adjoint")
+  /\ Chk("C17.convolutions_adjoint", <<VInfo, E.contribution, E.weighted_density, E.lhs, E.rhs, l>>, E.lhs, E.rhs, TolAdjoint(E.grid, E.points[1]), E.scale, "0")
+  /\ cnt' = BumpAll(cnt, VCount("adjoint") \cup (IF FLt("0", E.scale) THEN {"adjoint_nonzero"} ELSE {"adjoint_zero_weight"}))
+  /\ UNCHANGED refobs
+
+BondVar ==
+  /\ Ev("BondVar")
+  /\ LET d == DQ(E.proj_lnI_minus, E.proj_lnI_plus, E.eps) IN       \* "plus" = e0 exp(-e delta): delta is a change of dF/drho
+     /\ Chk("C17.bond_integral_variation_projected", <<VInfo, d, E.proj_delta_i, l>>, d, E.proj_delta_i, TolDiffQuot, E.proj_scale, "0")
+     /\ (E.has_fields =>
+           LET n == Len(E.delta_i)
+               dq == [k \in 1..n |-> DQ(<<E.lnI_minus[1][k], E.lnI_minus[2][k]>>, <<E.lnI_plus[1][k], E.lnI_plus[2][k]>>, E.eps)]
+               defect == FMaxAbs([k \in 1..n |-> FSub(dq[k], E.delta_i[k])])
+           IN Chk("C17.bond_integral_variation_pointwise", <<VInfo, defect, FMaxAbs(E.delta_i), l>>, defect, "0", TolDiffQuot, FMaxAbs(E.delta_i), "0"))
+  /\ cnt' = BumpAll(cnt, VCount("bondvar"))
+  /\ UNCHANGED refobs
+
 \* ---------------------------------------------------------------- C18
 \* tolerance of the last stage of a chain (the default solver ends with Anderson mixing at 1e-11)
 TolExp(e) == IF e.default_solver THEN 11 ELSE e.chain[Len(e.chain)].tol
@@ -138,7 +209,7 @@ Solve ==
 SkipEv == /\ Ev("Skip") /\ cnt' = Bump(cnt, "skipped") /\ UNCHANGED refobs
 
 Init == l = 1 /\ cnt = NoCount /\ refobs = <<>>
-Next == /\ (Uniform \/ Panic \/ Solve \/ SkipEv)
+Next == /\ (Uniform \/ Panic \/ Solve \/ SkipEv \/ Var1 \/ Var2 \/ Adjoint \/ BondVar)
         /\ (l' > NRec => PrintT("STATS " \o ToJson(cnt')))
 TraceSpec == Init /\ [][Next]_vars
 ================================================================================
